@@ -23,3 +23,4 @@ def rules(ctx):
     S.leaf_width_rules(ctx)
     S.after_bound_rules(ctx)
     S.tree_root_update_rules(ctx)
+    S.round5_rules(ctx)
